@@ -116,7 +116,7 @@ func cmdCheck(args []string) {
 	}
 	known := loadKnown(filepath.Join(*verifDir, "known_findings.json"))
 
-	timeout, canaryT, agree := 25, 2, 1
+	timeout, canaryT, agree := 40, 2, 1
 	if *tier == "thorough" {
 		timeout, canaryT, agree = 90, 5, 2
 		solvers = append(solvers, oldZ3)
